@@ -426,8 +426,9 @@ class Scores:
         # Example: We want threshold at 70% TPR. If easy_pos_ratio=60%, then we want
         # the threshold at 25% TPR on the remaining 40% hard positives, since
         # 70% - 60% = 10% is 25% of the remaining 40%
-        is_one = np.asarray(tpr) >= 1.0
-        tpr = np.maximum(np.asarray(tpr) - self.easy_pos_ratio, 0.0)
+        tpr = np.asarray(tpr, dtype=float)  # Targets may come in lower precision
+        is_one = tpr >= 1.0
+        tpr = np.maximum(tpr - self.easy_pos_ratio, 0.0)
         tpr = np.minimum(tpr / self.hard_pos_ratio, 1.0)
         # Rounding in the rescaling must not turn a target of 100% into less than 100%.
         tpr = np.maximum(tpr, is_one)
@@ -448,7 +449,7 @@ class Scores:
             raise ValueError("Cannot set threshold at FNR with no positive values.")
         # Example: We want the threshold at 5% FNR. If hard_pos_ratio=10%, then we want
         # the threshold at 5% / 0.1 = 50% of the available 10% of hard positives.
-        fnr = np.minimum(np.asarray(fnr) / self.hard_pos_ratio, 1.0)
+        fnr = np.minimum(np.asarray(fnr, dtype=float) / self.hard_pos_ratio, 1.0)
         return self._threshold_at_ratio(self.pos, fnr, True, BinaryLabel.pos, method)
 
     def threshold_at_tnr(self, tnr, *, method: str = "linear"):
@@ -465,8 +466,9 @@ class Scores:
         if len(self.neg) == 0:
             raise ValueError("Cannot set threshold at TNR with no negative values.")
         # See explanation in threshold_at_tpr()
-        is_one = np.asarray(tnr) >= 1.0
-        tnr = np.maximum(np.asarray(tnr) - self.easy_neg_ratio, 0.0)
+        tnr = np.asarray(tnr, dtype=float)  # Targets may come in lower precision
+        is_one = tnr >= 1.0
+        tnr = np.maximum(tnr - self.easy_neg_ratio, 0.0)
         tnr = np.minimum(tnr / self.hard_neg_ratio, 1.0)
         # Rounding in the rescaling must not turn a target of 100% into less than 100%.
         tnr = np.maximum(tnr, is_one)
@@ -486,7 +488,7 @@ class Scores:
         if len(self.neg) == 0:
             raise ValueError("Cannot set threshold at FPR with no negative values.")
         # See explanation at threshold_at_fnr()
-        fpr = np.minimum(np.asarray(fpr) / self.hard_neg_ratio, 1.0)
+        fpr = np.minimum(np.asarray(fpr, dtype=float) / self.hard_neg_ratio, 1.0)
         return self._threshold_at_ratio(self.neg, fpr, False, BinaryLabel.neg, method)
 
     def threshold_at_topr(self, topr, *, method: str = "linear"):
@@ -508,7 +510,8 @@ class Scores:
             raise ValueError("Cannot set threshold at TOPR without any values.")
         # See explanation at threshold_at_tonr()
         easy_pos_to_total_ratio = self.nb_easy_pos / self.nb_all_samples
-        topr = np.maximum(np.asarray(topr) - easy_pos_to_total_ratio, 0.0)
+        topr = np.asarray(topr, dtype=float)  # Targets may come in lower precision
+        topr = np.maximum(topr - easy_pos_to_total_ratio, 0.0)
         topr = np.minimum(topr / self.hard_ratio, 1.0)
         return self._threshold_at_ratio(
             concat_scores, topr, False, BinaryLabel.pos, method
@@ -536,7 +539,8 @@ class Scores:
         # threshold at 50% TONR on the 10% of data for which we have scores, since
         # 85% - 80% = 5% is 50% of the 10% data with scores (5% / 10%).
         easy_neg_to_total_ratio = self.nb_easy_neg / self.nb_all_samples
-        tonr = np.maximum(np.asarray(tonr) - easy_neg_to_total_ratio, 0.0)
+        tonr = np.asarray(tonr, dtype=float)  # Targets may come in lower precision
+        tonr = np.maximum(tonr - easy_neg_to_total_ratio, 0.0)
         tonr = np.minimum(tonr / self.hard_ratio, 1.0)
         return self._threshold_at_ratio(
             concat_scores, tonr, True, BinaryLabel.neg, method
